@@ -337,7 +337,10 @@ class Check:
     def _run(self, pool, seeds):
         deadline = time.monotonic() + self.wall
         jobs, scs = self.make_jobs(seeds)
+        phases = {"start_zygotes": round(time.time() - self.t0, 1)}
+        t1 = time.time()
         results = pool.run_jobs(jobs, deadline=deadline)
+        phases["random_batch"] = round(time.time() - t1, 1)
         by_seed = {}
         for j in jobs:
             seed = int(j["id"].split(":")[0])
@@ -359,9 +362,13 @@ class Check:
         # fault sweep: one fault at every fault point of a few seeded base scenarios (cijsim/sweep.py)
         if not os.environ.get("VERIF_NO_SWEEP"):
             try:
+                t1 = time.time()
                 self.sweep(pool, scs, agg, harness, violations, known_hits)
+                phases["fault_sweep"] = round(time.time() - t1, 1)
                 if self.prop in ("C12", "C14", "C15", "C19", "C09"):
+                    t1 = time.time()
                     self.sweep_interleavings(pool, scs, agg, harness, violations, known_hits)
+                    phases["interleaving_sweep"] = round(time.time() - t1, 1)
             except Exception as e:  # the sweep is part of the check: its failure is a harness error, never silence
                 import traceback
                 harness.append(f"fault sweep failed: {type(e).__name__}: {e} {traceback.format_exc()[-400:]}")
@@ -380,18 +387,26 @@ class Check:
                 if a["event_digest"] != b["event_digest"] or a["obs"] != b["obs"]:
                     harness.append(f"nondeterminism: {j['id'][3:]} gave different event logs in two executions (zygotes {a.get('_zygote')} and {b.get('_zygote')})")
             agg.determinism_reruns = len(jobs2)
+        phases["total_before_replays"] = round(time.time() - self.t0, 1)
+        agg.phases = phases
         wall = time.time() - self.t0
         for kid, (kf, n) in sorted(known_hits.items()):
             print(f"KNOWN-FINDING: property={kf['property']} {kf['what']} [{n} occurrences this run]")
         rc = 0
         replays = []
         if violations:
-            rc = 1
             seen = {}
             for s, v in violations:
                 seen.setdefault(signature(v), (s, v))
             for k, (sig, (s, v)) in enumerate(list(seen.items())[:3]):
                 path = self.write_replay(pool, scs[s], v, sig, k)
+                with open(path) as fp:
+                    reproduced = json.load(fp).get("reproduced_in_fresh_fork")
+                if not reproduced:
+                    # a violation that a fresh fork of the same scenario does not show again is nondeterminism of the harness, not a finding
+                    harness.append(f"violation of seed {s} ({v['oracle']}: {v['message'][:120]}) did not reproduce when its (minimised) scenario was replayed in a fresh fork: {path}")
+                    continue
+                rc = 1
                 replays.append(path)
                 print(f"VIOLATION property={self.prop} replay={path}")
                 print(f"  seed={s} oracle={v['oracle']} client={v.get('client')} op={v.get('op')}: {v['message'][:300]}")
@@ -427,7 +442,7 @@ class Check:
         from cijsim import sweep as SW
         nb = {"quick": 6, "thorough": 30}[self.tier]
         cap = {"quick": 36, "thorough": 400}[self.tier]
-        wall = {"quick": 60.0, "thorough": 600.0}[self.tier]
+        wall = {"quick": 45.0, "thorough": 600.0}[self.tier]
         deadline = time.monotonic() + wall
         seeds = [derive_seed(self.base_seed, 100000 + j) for j in range(nb)]
         bases = {s: SW.base_scenario(self.prop, s, self.tier) for s in seeds}
@@ -489,7 +504,7 @@ class Check:
         from cijsim import sweep as SW
         nb = {"quick": 3, "thorough": 12}[self.tier]
         cap = {"quick": 24, "thorough": 300}[self.tier]
-        wall = {"quick": 45.0, "thorough": 400.0}[self.tier]
+        wall = {"quick": 30.0, "thorough": 400.0}[self.tier]
         deadline = time.monotonic() + wall
         seeds = [derive_seed(self.base_seed, 200000 + j) for j in range(nb)]
         bases = {}
@@ -558,6 +573,11 @@ class Check:
             print("HARNESS: shrink failed:", e)
         vs, errs = self.run_scenario(pool, small)
         mine = [x for x in vs if sig_class(signature(x)) == sig_class(sig)]
+        if not mine and small is not sc:
+            # the minimised scenario does not show it: fall back to the scenario as it was found
+            small = sc
+            vs, errs = self.run_scenario(pool, small)
+            mine = [x for x in vs if sig_class(signature(x)) == sig_class(sig)]
         doc = {"format": 1, "property": self.prop, "scenario": small, "verdict": (mine[0] if mine else v),
                "original_seed": sc["seed"], "reproduced_in_fresh_fork": bool(mine), "signature": sig}
         path = os.path.join(REPLAY_DIR, f"{self.prop}-{sc['seed']}-{k}.json")
@@ -711,7 +731,7 @@ class Aggregate:
                                     "open, list-fail, cancel / alloc-fail at the first execution of every distinct cij source line of the operation, at a later execution of half of them, and "
                                     "on a geometric ladder of positions); variants beyond the cap are sampled by the seeded PRNG"),
                 "probes": self.probes, "coverage_tables": self.coverage,
-                "determinism_reruns": self.determinism_reruns,
+                "determinism_reruns": self.determinism_reruns, "wall_s_by_phase": getattr(self, "phases", {}),
                 "known_finding_hits": {k: n for k, (_, n) in known_hits.items()},
                 "harness_errors": harness[:20],
                 "real_components": ["cij (all modules, working tree of /repo)", "qha", "numpy", "scipy", "pandas", "pint", "sympy", "jsonschema", "networkx", "click", "PyYAML"],
